@@ -475,6 +475,7 @@ package orda
 //@   props C19 C03
 //@   requires its.common != nil && its.common.BaseDatatype != nil
 //@   replay-input path = path
+//@   loop 0 invariant len(parents) == rangeindex + 1
 //@   ensures[pointer-without-a-slash-is-an-error] !contains(path, "/") ==> result2 != nil
 //@   ensures[key-is-the-decoded-last-token] result2 == nil ==> result1 == unescapeRef(strings.splitLast(path, "/"))
 //@   modifies nothing
